@@ -88,7 +88,7 @@ CHECKS = {
     'C09': dict(
         technique='model-based / stateful property-based testing: exhaustive enumeration of short operation histories + Hypothesis RuleBasedStateMachine; reference = a freshly created Project on the same disk state',
         category='exploration',
-        text='Histories of rewrite / touch / create / request operations are applied to a long-lived Project (requests inside check_changes, as the server does); after every request the reply must equal that of a Project created at that moment. All histories up to length 3 over a reduced alphabet plus every request;edit;edit;request history (quick) / up to length 4 over the full alphabet of 14 edits and 16 requests (thorough) are enumerated; longer ones come from a rule-based state machine that shrinks whole sequences.',
+        text='Histories of rewrite / touch / create / delete / request operations are applied to a long-lived Project (requests inside check_changes, as the server does); after every request the reply must equal that of a Project created at that moment. All histories up to length 3 over a reduced alphabet plus every request;edit;edit;request history (quick) / up to length 3 over the full alphabet (19 edits incl. deletions, 27 requests from several buffers) and length 4 over the reduced one (thorough) are enumerated, plus directed histories of length 5; longer ones come from a rule-based state machine that shrinks whole sequences.',
         design_ref='DESIGN.md section 4 (C09)',
         note='One fixed import graph (diamond, a chain of length 3 below the requesting file, an import cycle, a relative-import package, late-created modules and package, a module deleted and written again, an import under a global declaration) whose module contents are functions of toggles; modification times from a harness counter via os.utime; order inside alternative lists normalised (C17).'),
     'C17': dict(
